@@ -1,4 +1,5 @@
 import TxdbusModel.Proofs.Proto.Binary
+import TxdbusModel.Wire.Prim
 /-
 Lemmas about the spec `frames`: conservation, appending bytes, concatenations of well-formed messages.
 -/
@@ -67,4 +68,23 @@ theorem frames_flatten_wellFormed (ms : List Bytes) (h : ∀ m ∈ ms, Spec.Well
     simp only [List.take_left', List.drop_left']
     rw [ih (fun x hx => h x (by simp [hx]))]
     simp
+/-- Bridge to C03: `Msg.marshal_wellformed` (Properties/C03.lean) states that every message
+`_marshal` constructs is, byte for byte, `[108, type, flags, 1] ++ encUInt .little 4 |body| ++
+encUInt .little 4 serial ++ encUInt .little 4 |fieldArray| ++ fieldArray ++ pad ++ body` with
+`|pad| < 8`, `(16 + |fieldArray| + |pad|) % 8 = 0` and both lengths below 2^32.  Every byte string of
+that shape is well-formed for framing. -/
+theorem wellFormed_of_layout (t f : UInt8) (serial : Nat) (arr pad body : Bytes)
+    (hpad : pad.length < 8) (hal : (16 + arr.length + pad.length) % 8 = 0)
+    (hb : body.length < 4294967296) (ha : arr.length < 4294967296) :
+    Spec.WellFormed ([108, t, f, 1] ++ encUInt .little 4 body.length ++ encUInt .little 4 serial
+      ++ encUInt .little 4 arr.length ++ arr ++ pad ++ body) := by
+  have hm : Spec.msgLen ([108, t, f, 1] ++ encUInt .little 4 body.length ++ encUInt .little 4 serial
+      ++ encUInt .little 4 arr.length ++ arr ++ pad ++ body) = 16 + arr.length + pad.length + body.length := by
+    simp [Spec.msgLen, Spec.u32At, Spec.byteAt, Spec.pad8, encUInt, leBytes]
+    omega
+  refine ⟨by simp [encUInt, leBytes], ?_⟩
+  rw [hm]
+  simp [encUInt, leBytes]
+  omega
+
 end Txdbus.Proto
